@@ -69,12 +69,12 @@ def nested_comparison(ast):
 
 
 def translate_all(prov, work, stats):
-    """work: [(q, slice or None)] -> items for the judge (one per translatable query)."""
+    """work: [(q, slice or None, expected per data set)] -> items for the judge (one per translatable query)."""
     db = mockdb.make(prov, qs.define)
     ns = qs.namespace(db)
     dialect = mockdb.DIALECTS[prov]
     items = []
-    for n, (q, sl) in enumerate(work):
+    for n, (q, sl, out) in enumerate(work):
         expr, post = query_source(q, sl)
         ast = None
         try:
@@ -107,7 +107,7 @@ def translate_all(prov, work, stats):
         r0 = q['res'][0]
         entity = len(q['res']) == 1 and q['agg'] == 'none' and (r0[0] == 'var' or (r0[0] == 'attr' and r0[2] == 'ref'))
         items.append(dict(id=len(items) + 1, d=dialect, q=q, st=st, take=1 if entity else 0,
-                          slice=list(sl) if sl else [], ds=DATASETS[prov], _src=qs.describe(q) + ('[%s:%s]' % sl if sl else ''),
+                          slice=list(sl) if sl else [], ds=DATASETS[prov], exp=[out[k - 1] for k in DATASETS[prov]], _src=qs.describe(q) + ('[%s:%s]' % sl if sl else ''),
                           _nested=nested_comparison(ast), _n=n))
         if n % 100 == 99:
             c01.clear_pony_caches(db)
@@ -127,7 +127,7 @@ def sqlite_rows(work, datasets):
         return orig(sql, arguments, *a, **kw)
     db._exec_sql = spy
     out = {}
-    for n, (q, sl) in enumerate(work):
+    for n, (q, sl, out) in enumerate(work):
         expr, post = query_source(q, sl)
         del rec[:]
         try:
@@ -192,8 +192,8 @@ def node_kinds(x, acc=None):
 
 def run(ctx):
     quick = ctx.tier == 'quick'
-    datasets, nonefree, cases = c01.export_cases(ctx, {'mode': 'enum', 'depth': 2, 'div': False}, 'tables')
-    work = [(c['q'], None) for c in cases] + slice_queries()
+    pool = ThreadPoolExecutor(4)
+    extra = slice_queries()
     if not quick:
         n = 3000
         smp = qs.Sampler(ctx.seed)
@@ -203,10 +203,21 @@ def run(ctx):
             key = json.dumps(q, sort_keys=True)
             if key not in seen:
                 seen.add(key)
-                work.append((q, None))
+                extra.append((q, None))
+    # expected results: QuerySem.RefEval, exported by TLC (the C01 table, and the same for the extra trees)
+    jobs = [pool.submit(c01.export_cases, ctx, {'mode': 'enum', 'depth': 2, 'div': False}, 'tables')]
+    jobs += [pool.submit(c01.export_cases, ctx, {'mode': 'given', 'queries': [q for q, sl in extra[i:i + 1000]], 'depth': 0, 'div': False},
+                         'extra%d' % i, False) for i in range(0, len(extra), 1000)]
+    datasets, nonefree, cases = jobs[0].result()
+    work = [(c['q'], None, c['out']) for c in cases]
+    k = 0
+    for j in jobs[1:]:
+        for c in j.result()[2]:
+            assert c['q'] == extra[k][0]
+            work.append((c['q'], extra[k][1], c['out']))
+            k += 1
 
     stats = {p: {'untranslatable': Counter(), 'unsupported': Counter()} for p in PROVIDERS}
-    pool = ThreadPoolExecutor(4)
     real_job = pool.submit(sqlite_rows, work, datasets)      # real SQLite engine (model validation), in parallel with TLC
     items = {p: translate_all(p, work, stats[p]) for p in PROVIDERS}
 
@@ -289,7 +300,8 @@ def run(ctx):
 def replay(ctx, rep):
     q, sl, p = rep['q'], rep['slice'] or None, rep['provider']
     stats = {'untranslatable': Counter(), 'unsupported': Counter()}
-    its = translate_all(p, [(q, tuple(sl) if sl else None)], stats)
+    _, _, cs = c01.export_cases(ctx, {'mode': 'given', 'queries': [q], 'depth': 0, 'div': False}, 'replay-exp')
+    its = translate_all(p, [(q, tuple(sl) if sl else None, cs[0]['out'])], stats)
     if not its:
         print('not translatable any more: %r' % (stats,))
         return
